@@ -337,6 +337,9 @@ pub struct Ctl {
     pub crash_at: Option<(usize, bool)>,
     pub crashed: bool,
     pub next_payload: Option<validator::Payload>,
+    /// when set, payloads made up by propose_payload carry this tag and a counter (distinct per node and call)
+    pub payload_tag: Option<String>,
+    pub payload_counter: u64,
     pub bad_payloads: HashSet<Vec<u8>>,
 }
 
@@ -451,8 +454,14 @@ impl EngineInterface for VerifEngine {
         Ok(())
     }
     async fn propose_payload(&self, _ctx: &ctx::Ctx, number: validator::BlockNumber) -> ctx::Result<validator::Payload> {
-        let p = self.0.ctl.lock().unwrap().next_payload.take();
-        Ok(p.unwrap_or_else(|| validator::Payload(format!("auto{}", number.0).into_bytes())))
+        let mut c = self.0.ctl.lock().unwrap();
+        let p = c.next_payload.take();
+        c.payload_counter += 1;
+        let auto = match &c.payload_tag {
+            Some(t) => format!("auto{}-{t}-{}", number.0, c.payload_counter),
+            None => format!("auto{}", number.0),
+        };
+        Ok(p.unwrap_or_else(|| validator::Payload(auto.into_bytes())))
     }
     async fn get_state(&self, _ctx: &ctx::Ctx) -> ctx::Result<validator::ReplicaState> {
         Ok(self.0.state.lock().unwrap().clone())
